@@ -816,5 +816,63 @@ def bcp_switch_set():
     return C
 
 
+def key_removal_set(pid="C03k"):
+    """removal by key: a handler is removed with exactly the switch, callback, STATE and hold time it was registered
+    with (so handlers for the inactive transition are removed too, and a removed handler never fires)"""
+    C = ContractSet(pid, "switch handlers are removed by exactly their key")
+    C.strings = False
+    C.cls("MpfController", fields={})
+    C.namedtuple("mpf/core/switch_controller.py", "SwitchHandler")
+    NK = common.bound(2, 3)
+    KEY = TupleS(Opaque("SwitchObj"), Fn, Int, Real, ntname="SwitchHandler", fields=("switch_name", "callback", "state", "ms"))
+    C.cls("SwitchController", file="mpf/core/switch_controller.py", bases=["MpfController"], check_bases=False, fields={})
+
+    def rm(I, env, a, k):
+        args = list(a) + [None] * (4 - len(a))
+        names = ["switch", "callback", "state", "ms"]
+        got = {}
+        for nm, v in zip(names, args):
+            got[nm] = v if v is not None else k.get(nm)
+        # real defaults of remove_switch_handler_obj: state=1, ms=0
+        if got["state"] is None:
+            got["state"] = VInt(1)
+        if got["ms"] is None:
+            got["ms"] = VInt(0)
+        emit(I, "remove_obj", **got)
+        return NONE
+    C.ext("SwitchController.remove_switch_handler_obj", model=rm,
+          trusted_reason="SwitchController.remove_switch_handler_obj(switch, callback, state=1, ms=0) (main set: removes "
+                         "exactly the matching entries)")
+
+    def keys(I, name):
+        return I.new_list([I.fresh(KEY, "%s[%d]" % (name, i)) for i in range(I.ctx.fork(NK + 1))], name)
+
+    def removed_exactly(I, *ks):
+        evs = events_named(I, "remove_obj")
+        if len(ks) == 1 and I.force(ks[0]).tag == "list":
+            ks = I.container(I.force(ks[0]).ref).items
+        if len(evs) != len(ks):
+            return VBool(False)
+        cs = []
+        for e, kv in zip(evs, ks):
+            kt = I.force(kv)
+            cs += [I.eq(e.args["switch"], kt.items[0]), I.eq(e.args["callback"], kt.items[1]),
+                   I.eq(e.args["state"], kt.items[2])]
+            m1, m2 = I.num(e.args["ms"]), I.num(kt.items[3])
+            cs.append((z3.ToReal(m1[1]) if m1[0] == "int" else m1[1]) == (z3.ToReal(m2[1]) if m2[0] == "int" else m2[1]))
+        return VBool(z3.And(cs + [z3.BoolVal(True)]))
+    C.helpers["removed_exactly"] = removed_exactly
+    C.trace_helpers = {"removed_exactly"}
+    C.fn("SwitchController.remove_switch_handler_by_key", params=dict(switch_handler=KEY),
+         ensures=[("RK1: exactly the handler the key names is removed: same switch, callback, state and hold time",
+                   "removed_exactly(switch_handler)")], modifies=[], raises={})
+    C.fn("SwitchController.remove_switch_handler_by_keys", params=dict(switch_handlers=Init(keys)),
+         loops={0: LoopSpec(invariant=[], unroll=True)},
+         ensures=[("RK2: every key of the list is removed with its own switch, callback, STATE and hold time (handlers "
+                   "registered for the inactive transition included)", "removed_exactly(switch_handlers)")],
+         modifies=[], raises={}, bounded="BOUNDED: lists of at most %d keys" % NK)
+    return C
+
+
 def build_extra():
-    return [timed_add_set(), switch_events_set(), bcp_switch_set()]
+    return [timed_add_set(), switch_events_set(), bcp_switch_set(), key_removal_set()]
